@@ -1,25 +1,50 @@
 #!/bin/bash
-# Determinism self-test (DESIGN.md 8.1): for a check, run N seeds twice under GOMAXPROCS 1, 4, 16
-# (separate processes, different CPU pinning) and compare per-run event-log hashes and tape lengths.
-# usage: tools/determinism.sh <ID> [runs]
-id=$1; runs=${2:-40}
+# Determinism self-test (DESIGN.md 8.1 / 10.5).
+# For one check: the same `runs` run indices (same VERIF_SEED) are executed by 30 separate OS
+# processes - for each worker count NumCPU in {1,2,4} (the swarm knob that is recorded in every
+# replay file, so it is held fixed inside a comparison): 6 processes with GOMAXPROCS=1 (the
+# registered configuration) pinned to different physical CPUs, plus 2 each with GOMAXPROCS=4 and
+# GOMAXPROCS=16 (informational: the registered commands never use them) - all started together so
+# that they also compete for the machine. Per-run event-log hashes and tape lengths are compared.
+# usage: tools/determinism.sh <ID> [runs] [seed]
+# exit 0 = the registered configuration (GOMAXPROCS=1) never diverged; 1 = it diverged.
+id=$1; runs=${2:-40}; seed=${3:-11}
 cd /verif
+. ./env.sh
 lc=$(echo $id | tr A-Z a-z)
 ./check $id --runs 1 >/dev/null 2>&1   # make sure the binary is current
-d=/tmp/det-$id-$$; mkdir -p $d
+d=$(mktemp -d /tmp/det-$id-XXXX)
+total=$(nproc)
 n=0
-for gmp in 1 4 16; do for rep in a b; do
+launch() { # ncpu gmp tag
+  local ncpu=$1 gmp=$2 tag=$3 first=$(( (n * 3) % total )) list=""
   n=$((n+1))
-  cpus=$(( (n % 3) + 1 ))
-  ( cd $d && GOMAXPROCS=$gmp GODEBUG=asyncpreemptoff=1 VERIF_SEED=11 VERIF_RUNS=$runs VERIF_DUMP_HASHES=$d/h-$gmp-$rep.txt \
-    VERIF_OUT=$d/o-$gmp-$rep.json VERIF_REPLAY_DIR=$d VERIF_IDENT_CACHE=/verif/.build/ident-cache.json VERIF_MAX_CLASSES=100000 VERIF_KNOWN="$(printf 'x')" \
-    taskset -c 0-$((cpus*4-1)) /verif/.build/$lc.test -test.run '^TestCheck$' -test.timeout 0 >/dev/null 2>&1 ) &
-done; done
-wait
-ref=$d/h-1-a.txt
-bad=0
-for f in $d/h-*.txt; do
-  if ! cmp -s $ref $f; then bad=$((bad+1)); echo "DIVERGED: $f"; diff $ref $f | head -5; fi
+  for ((i=0;i<ncpu;i++)); do list="$list,$(( (first + i) % total ))"; done
+  list=${list#,}
+  mkdir -p $d/w-$tag
+  ( cd $d/w-$tag && GOMAXPROCS=$gmp GODEBUG=asyncpreemptoff=1 VERIF_SEED=$seed VERIF_TIER=quick VERIF_RUNS=$runs VERIF_SHARD=0/1 \
+    VERIF_DUMP_HASHES=$d/h-$tag.txt VERIF_OUT=$d/o-$tag.json VERIF_STDERR=$d/e-$tag.txt VERIF_REPLAY_DIR=$d/w-$tag \
+    VERIF_IDENT_CACHE=/verif/.build/ident-cache.json VERIF_NO_MINIMISE=1 \
+    taskset -c $list /verif/.build/$lc.test -test.run '^TestCheck$' -test.timeout 0 >/dev/null 2>&1 ) &
+}
+for ncpu in 1 2 4; do
+  for rep in a b c d e f; do launch $ncpu 1 n$ncpu-g1-$rep; done
+  for rep in a b; do launch $ncpu 4 n$ncpu-g4-$rep; done
+  for rep in a b; do launch $ncpu 16 n$ncpu-g16-$rep; done
 done
-echo "$id: $(wc -l < $ref) runs x 6 processes (GOMAXPROCS 1,4,16 twice, NumCPU 4/8/12), diverging processes: $bad"
+wait
+bad1=0; badN=0; lines=0
+for ncpu in 1 2 4; do
+  ref=$d/h-n$ncpu-g1-a.txt
+  [ -s $ref ] || { echo "$id: no hash dump for NumCPU=$ncpu"; bad1=$((bad1+1)); continue; }
+  lines=$((lines + $(wc -l < $ref)))
+  for f in $d/h-n$ncpu-g1-*.txt; do
+    if ! cmp -s $ref $f; then bad1=$((bad1+1)); echo "DIVERGED (GOMAXPROCS=1): $f"; diff $ref $f | head -4; fi
+  done
+  for f in $d/h-n$ncpu-g4-*.txt $d/h-n$ncpu-g16-*.txt; do
+    if ! cmp -s $ref $f; then badN=$((badN+1)); echo "differs (GOMAXPROCS>1, informational): $(basename $f): $(diff $ref $f | grep -c '^<') of $(wc -l < $ref) runs"; fi
+  done
+done
+echo "DET $id seed=$seed: $lines run-hashes compared across 30 processes; GOMAXPROCS=1 diverging processes: $bad1 of 18; GOMAXPROCS 4/16 differing processes: $badN of 12"
 rm -rf $d
+[ $bad1 -eq 0 ]
